@@ -569,6 +569,19 @@ impl SimNet {
                         let p = n.queue.remove(&k).unwrap();
                         n.delivered += 1;
                         if let Some(seg) = n.tcp.take_seg(&k) {
+                            if n.blackhole {
+                                // total partition (set_blackhole): the segment was marked lost when it was sent, and its
+                                // retransmission is lost as well for as long as the partition lasts - try again in 2 s
+                                let at = n.tcp.hold_back(&seg, Instant::now() + Duration::from_millis(2000));
+                                n.seq += 1;
+                                let k2 = (at, n.seq);
+                                n.queue.insert(k2, p);
+                                n.tcp.put_seg(k2, seg);
+                                n.delivered -= 1;
+                                drop(n);
+                                self.sh.lock().unwrap().stat("fault.blackhole_tcp_retx_lost", 1);
+                                continue;
+                            }
                             // a TCP segment: handshake / byte stream / FIN / RST handling instead of a socket queue
                             drop(n);
                             self.tcp_deliver(seg, p);
